@@ -173,7 +173,7 @@ fn l0(rep: &Arc<Reporter>, args: &Args) {
     let certs = Arc::new(make_certs(&dir, ""));
     let n = common::workers();
     let seed = args.seed;
-    let nconf = args.qt(400u64, 12_000u64);
+    let nconf = args.qt(1500u64, 40_000u64);
     let alpns = Arc::new(alpn_lists(args.qt(2, 3)));
     let results = common::parallel(n, { let certs = certs.clone(); let alpns = alpns.clone(); move |shard, nshards| {
         let mut local = Local::default();
@@ -256,7 +256,7 @@ fn reload(rep: &Arc<Reporter>, args: &Args) {
             (a, b, ambiguous, neither)
         }));
     }
-    let rounds = args.qt(150, 3000);
+    let rounds = args.qt(400, 6000);
     let mut failed_reload_kept = 0u64;
     for i in 0..rounds {
         let (cfg, certs) = if i % 2 == 0 { (&cfg_b, &certs_b) } else { (&cfg_a, &certs_a) };
